@@ -36,13 +36,14 @@ META = {
                   "distinct filters from an alphabet of 10 / 20 (every operator cqlengine offers, IN incl. the empty list, "
                   "token() over the composite partition key) with option profiles, all compatible sets of up to 2 / 3 assignments of 18 "
                   "x 10 condition/flag profiles, creates, instance saves with up to 2 / 3 attribute changes of 18, and all batches of 2-3 "
-                  "members of 8 / 12 representative statements.  Every statement string and parameter dict that reaches the session is "
+                  "members of 10 / 16 representative statements.  Every statement string and parameter dict that reaches the session is "
                   "checked, so each case decides the property for that shape.",
     "level_note": "Bounded alphabets: Integer / Text / Set / List / Map<int,int> / Counter columns only (to_database is the identity "
                   "on them up to container type); one model with a composite partition key, one clustering column, one static column, "
                   "one renamed column (db_field).  Whole-map assignment through the queryset is left to C35 (its meaning, not its "
-                  "binding, is in question).  A condition on a column the same call also writes, in calls that need a second DELETE "
-                  "statement, is not enumerated (nothing states what becomes of it).  ORDER BY / LIMIT / ALLOW FILTERING / column "
+                  "binding, is in question).  Calls that send UPDATE + follow-up DELETE with iff conditions on written and unwritten "
+                  "columns (in both orders, alone and first / later in a batch) are enumerated; the DELETE is expected to carry the "
+                  "conditions except those on columns the UPDATE wrote (the code's stated intent).  ORDER BY / LIMIT / ALLOW FILTERING / column "
                   "lists are varied but not compared (the property speaks of WHERE / IF / SET).  Vacuity witnesses are checked on the "
                   "dumped cases in both tiers and additionally by TLC (Witness_* must be violated) in the thorough tier.  Trusted: TLC, "
                   "the CQL tokenizer/parser of harness/replay/cql_interp.py, the recording session.",
@@ -50,12 +51,13 @@ META = {
 }
 
 INVARIANTS = ["IdsUniqueAndDense", "OneValuePerId", "BatchOffsets", "NotEmpty"]
-WITNESSES = ["Witness_TwoIdClause", "Witness_TokenFilter", "Witness_BatchOfThree", "Witness_TwoStatements", "Witness_MayRefuse"]
+WITNESSES = ["Witness_TwoIdClause", "Witness_TokenFilter", "Witness_BatchOfThree", "Witness_TwoStatements", "Witness_MayRefuse",
+             "Witness_SharedConditionsFirstInBatch"]
 
 
 def constants(quick):
     return {"NF": 10 if quick else 20, "MaxFilters": 3, "NProfLong": 2 if quick else 3, "MaxAssign": 2 if quick else 3,
-            "MaxMuts": 2 if quick else 3, "MaxCreate": 2 if quick else 3, "MaxBatch": 3, "NBM": 8 if quick else 12}
+            "MaxMuts": 2 if quick else 3, "MaxCreate": 2 if quick else 3, "MaxBatch": 3, "NBM": 10 if quick else 16}
 
 
 def witness_classes(case, out):
@@ -72,6 +74,11 @@ def witness_classes(case, out):
         got.add("Witness_TwoStatements")
     if k == "select" and out["mayrefuse"]:
         got.add("Witness_MayRefuse")
+    if k == "batch" and case["members"][0]["kind"] in ("instsave", "qsupdate"):
+        st = out["sent"][0]["stmts"]
+        if len(st) >= 3 and st[0]["kind"] == "update" and st[1]["kind"] == "delete" and len(st[0]["iff"]) >= 2 and \
+                1 <= len(st[1]["iff"]) < len(st[0]["iff"]) and st[0]["iff"][0][0] != st[1]["iff"][0][0]:
+            got.add("Witness_SharedConditionsFirstInBatch")
     return got
 
 
